@@ -401,6 +401,23 @@ fn pairs(args: &Args, thorough: bool, total: &mut Report, bounds: &mut Map<Strin
                     None => should,
                     Some(p) => !should || p.index1() != i1 || p.index2() != i2,
                 };
+                // finders built from accepted pairs at the extremes of the
+                // index range (and a diagonal sample) must construct, echo
+                // the pair and report the documented minimum length
+                if let Some(p) = got {
+                    let edge = |i: u8| i <= 1 || i >= 250 || (i as usize) + 2 >= l;
+                    if (edge(i1) && edge(i2)) || (i1 as usize * 7 + i2 as usize) % 97 == 0 {
+                        if let Err(msg) = guarded(|| echo_pair(r, &needle, p)) {
+                            r.violation(Violation {
+                                class: "panic".into(),
+                                key: l as u64,
+                                what: format!("[panic] building finders from Pair::with_indices({}-byte needle, {}, {}) panicked: {}", l, i1, i2, msg),
+                                replay_argv: vec!["pairs".into()],
+                                detail: json!({"class": "panic", "needle_len": l, "index1": i1, "index2": i2}),
+                            });
+                        }
+                    }
+                }
                 if bad {
                     r.violation(Violation {
                         class: "wrong_result".into(),
@@ -555,6 +572,28 @@ fn equal(args: &Args, thorough: bool, total: &mut Report, bounds: &mut Map<Strin
         }
     });
     total.merge(rep);
+    // (3) aliased operands: both slices are views of ONE buffer (sharing a
+    // start, an end, overlapping, nested, adjacent, or identical)
+    let bufs = AllStrings { letters: b"ab".to_vec(), minlen: 0, maxlen: if thorough { 9 } else { 8 } }.all();
+    let rep = par::run_chunks(bufs.len() as u64, 4, |lo, hi, r| {
+        let mut ar = Arena::plain(1);
+        for bi in lo..hi {
+            let b = &bufs[bi as usize];
+            let n = b.len();
+            let placed: &[u8] = ar.place_fill(64 + (bi as usize % 8), b, b'a', b'a', 16);
+            for i in 0..=n {
+                for j in i..=n {
+                    for k in 0..=n {
+                        for l in k..=n {
+                            check_equal(r, &placed[i..j], &placed[k..l], "aliased");
+                        }
+                    }
+                }
+            }
+        }
+    });
+    total.merge(rep);
+    bounds.insert("equal-aliased".into(), json!({"buffers_over_ab_up_to": if thorough { 9 } else { 8 }, "operands": "every pair of sub-slices [i..j], [k..l] of the same buffer"}));
     bounds.insert("equal".into(), json!({"all_pairs_over_ab_up_to": maxl, "single_byte_differences": {"len": [0, maxlen], "every position": true, "deltas": ["+1", "+0x80", "+0xff"], "alignments": "8 x 8", "guard": ["both operands flush against the trailing PROT_NONE page", "both directly after the leading one"]}, "unequal_lengths": "|x|-|y| in -3..=3"}));
 }
 
